@@ -17,8 +17,8 @@ OBLIGATIONS = [
     "Pkgcore.C34.filtered_windows_are_statements",
     "Pkgcore.C34.sentinel_never_emitted",
     "Pkgcore.C34.statements_follow_matchers",
-    "Pkgcore.C34.patterns_select_whole_name_partial",
-    "Pkgcore.C34.single_alternation_token_counterexample",
+    "Pkgcore.C34.patterns_select_whole_name",
+    "Pkgcore.C34.ungrouped_single_token_counterexample",
     "Pkgcore.C34.names_run_is_scanner_run",
     "Pkgcore.C34.statements_selected_by_name",
     "Pkgcore.C34.plain_names_selected_exactly",
@@ -46,10 +46,10 @@ RULE = ("environment dumps written by bash itself: 1-8 variables with random val
         "parameter expansions, here-documents incl. <<-, <<'' and quoted words, case arms, comments, arithmetic, subshells, command "
         "substitution, nested functions, [[ =~ ]], process substitution) inside if/for/while/case/brace-group wrappers, printed by "
         "declare -f, plus generated here-documents (<<, <<-, quoted and unquoted words, text lines that end in / contain / start with "
-        "the delimiter word, unbalanced quotes, braces and parentheses in the text, trailing commands, inside $( )); the names are "
+        "the delimiter word — also indented or followed by ; } ) —, unbalanced quotes, braces and parentheses in the text, trailing commands, inside $( )); the names are "
         "drawn from pools in which names share prefixes, suffixes and infixes (CFLAGS / CFLAGS_amd64 / XCFLAGS, T / TT, pkg_setup / "
         "pkg_setup_hook); black/white-lists of 0-5 tokens (plain names as the callers pass them, prefix.*, .*suffix, optional and "
-        "wildcard characters, empty tokens) over dumped and not-dumped related names in random order; a selection stream (name lists "
+        "wildcard characters, empty tokens, tokens that are alternations a|b — also as the only token) over dumped and not-dumped related names in random order; a selection stream (name lists "
         "x token lists on one-line definitions, bounded-exhaustive over a small universe) and a mutated stream (single edits of a "
         "dump) for robustness; "
         "non-trivial = the dump has at least two definitions and at least one is selected for removal and at least one is kept")
@@ -63,15 +63,11 @@ LEVEL_TEXT = ("Kernel-checked Lean 4 theorems about a function-by-function port 
               "(declare -p / declare -f after sourcing the filtered text).")
 LEVEL_NOTE = ("Partial by construction: that the scanner's statement boundaries coincide with bash's for every function body is not a theorem "
               "(the scanner is a heuristic); it is checked against bash on the sampled dumps. Open findings: a ${…} expansion containing a "
-              "quoted closing brace ends at that brace; groups/subshells with stray closers; two here-documents on one line; a "
-              "here-document text line that looks like the terminator (indented word, word followed by ; } ) ); a single token with a "
-              "top-level | is not grouped.")
+              "quoted closing brace ends at that brace; groups/subshells with stray closers; two here-documents on one line.")
 
 FINDING = "C34-quoted-brace-in-expansion"
 FINDING_GROUP = "C34-closer-inside-group"
 FINDING_TWO_HEREDOCS = "C34-two-heredocs-one-line"
-FINDING_LOOKALIKE = "C34-heredoc-terminator-lookalike"
-FINDING_ALT_TOKEN = "C34-single-token-alternation"
 
 
 def gen_tables(repo):
@@ -239,7 +235,7 @@ def esc_token(n):
     return n.replace("+", "\\+").replace(".", "\\.").replace("*", "\\*")
 
 
-def gen_tokens(rng, cands, allow_finding=True):
+def gen_tokens(rng, cands):
     """a token list as the callers pass it: plain (escaped) names and simple patterns, in random order"""
     if not cands or rng.random() < 0.2:
         return []
@@ -273,14 +269,9 @@ def gen_tokens(rng, cands, allow_finding=True):
         toks.insert(rng.randrange(len(toks) + 1), "")
     if len(toks) >= 3 and rng.random() < 0.08:
         toks = ["|".join(toks[:2])] + toks[2:]          # a token that is itself an alternation (grouped: exact)
-    elif allow_finding and len(toks) == 2 and "" not in toks and rng.random() < 0.06:
-        toks = ["|".join(toks)]                         # open finding: a single token with a top-level |
+    elif len(toks) == 2 and "" not in toks and rng.random() < 0.25:
+        toks = ["|".join(toks)]                         # a single token with a top-level | (was not grouped before the fix)
     return toks
-
-
-def is_alt_finding(toks):
-    live = [t for t in toks if t]
-    return len(live) == 1 and _re.search(r"(?<!\\)\|", live[0]) is not None
 
 
 # ---- here-documents
@@ -290,13 +281,13 @@ HD_PLAIN = ["plain text", "", "}", "{", "    indented }", "$x `y` $(z) ${w}", "%
             "#%s", "text %s ", "%s%s", "%s.", "; %s", "echo } )", "a=1", "f() {", "esac", "done", ";;", "#"]
 HD_EOL = ["text %s", "text\t%s", "finish it with %s", "}\t%s", "' %s"]
 HD_UNBAL = ["Don't do that", 'say "hi', "`", "$(", "${", "(", ")", "'", "\\", "it's $(", "\"'", "<<"]
-# text lines the scanner takes for the terminator although bash does not (open finding)
+# text lines the scanner took for the terminator although bash does not (fixed)
 HD_LOOKALIKE = [" %s", "\t%s", "%s;", "%s}", "%s)", "  %s", "%s; x", "%s} y", "%s)z", " \t%s;"]
 HD_CMDS = ["cat", "cat > f", "tr a b", "while read l; do :; done", "read -r a b"]
 HD_RESTS = ["", "", "", " | tr a b", " && echo '}'", "; echo hi", " > /dev/null", " || die \"x}\"", " 2>&1 | { cat; }"]
 
 
-def gen_heredoc(rng, allow_finding=True):
+def gen_heredoc(rng):
     keys = ["hd"]
     dash = rng.random() < 0.3
     quoted = rng.random() < 0.3
@@ -312,7 +303,7 @@ def gen_heredoc(rng, allow_finding=True):
             ln, kk = rng.choice(HD_PLAIN), None
         elif k < 0.6:
             ln, kk = rng.choice(HD_EOL), "hd_eolword"
-        elif k < 0.98 or not allow_finding:
+        elif k < 0.93:
             ln, kk = rng.choice(HD_UNBAL), "hd_unbalanced"
         else:
             ln, kk = rng.choice(HD_LOOKALIKE), "hd_lookalike"
@@ -356,7 +347,7 @@ def gen_body(rng, allow_finding):
             k = rng.choice(sorted(FINDING_ATOMS))
             atom, akeys = FINDING_ATOMS[k], [k]
         elif r < 0.3:
-            atom, akeys = gen_heredoc(rng, allow_finding)
+            atom, akeys = gen_heredoc(rng)
             k = "hd"
         else:
             k = rng.choice(sorted(BODY_ATOMS))
@@ -390,7 +381,7 @@ def gen_case(rng, allow_finding=True):
         body, keys = gen_body(rng, allow_finding)
         funcs.append({"name": n, "body": body})
         atoms += keys
-    return {"vars": vars_, "funcs": funcs, "vpat": gen_tokens(rng, vcands, allow_finding), "fpat": gen_tokens(rng, fcands, allow_finding),
+    return {"vars": vars_, "funcs": funcs, "vpat": gen_tokens(rng, vcands), "fpat": gen_tokens(rng, fcands),
             "vwl": rng.random() < 0.3, "fwl": rng.random() < 0.3, "interleave": rng.random() < 0.2, "atoms": atoms}
 
 
@@ -591,7 +582,8 @@ CORPUS = [
     _c(vars_=_SHARED_V, funcs=_SHARED_F, vpat=["T"], fpat=["src_compile"], vwl=True),
     _c(vars_=_SHARED_V, funcs=_SHARED_F, vpat=["FLAGS", "", "C.*_amd64", "TT?"], fpat=[".*_setup", "nomatch_x", "src_compil"]),
     _c(vars_=_SHARED_V, vpat=["CFLAGS|T", "LDFLAGS"]),                                  # alternation inside a token, grouped
-    _c(vars_=_SHARED_V, vpat=["CFLAGS|T"], atoms=("corpus",)),                          # open finding: single token with |
+    _c(vars_=_SHARED_V, vpat=["CFLAGS|T"]),                                              # single token with | (fixed b3641f3)
+    _c(vars_=_SHARED_V, funcs=_SHARED_F, vpat=["T|DISTDIR"], fpat=["src_compile|pkg_setup"], vwl=True, fwl=True),
     # here-documents whose text mentions the delimiter word and has unbalanced quotes
     _c(funcs=[("pkg_nofetch", "cat <<EOF\nPlease download ${PN}.tar.gz by hand.\nEOF"), ("usage", _USAGE), ("pkg_pretend", "[[ -n ${PN} ]] || die \"no PN\""),
               ("src_test", "usage > /dev/null; emake check")], fpat=["pkg_pretend", "src_test"]),
@@ -599,8 +591,10 @@ CORPUS = [
               ("src_test", "usage > /dev/null; emake check")], fpat=["usage"], fwl=True),
     _c(funcs=[("a1", "cat <<'E O F' | tr a b\nsay \"E O F\nx E O F\nE O Fx\n`\nE O F"), ("b1", "echo b")], fpat=["b1"]),
     _c(funcs=[("a1", "x=$(cat <<X1\ntext\tX1\n(it's\nX1\n)"), ("b1", "echo b")], fpat=["a1"]),
-    _c(funcs=[("a1", "cat <<EOF\n EOF\nDon't\nEOF"), ("b1", "echo b")], fpat=["b1"], atoms=("corpus", "hd_lookalike")),      # open finding
-    _c(funcs=[("a1", "cat <<EOF\nEOF; it's\nEOF"), ("b1", "echo b")], fpat=["a1"], atoms=("corpus", "hd_lookalike")),        # open finding
+    _c(funcs=[("a1", "cat <<EOF\n EOF\nDon't\nEOF"), ("b1", "echo b")], fpat=["b1"], atoms=("corpus", "hd_lookalike")),      # fixed 3403941
+    _c(funcs=[("a1", "cat <<EOF\nEOF; it's\nEOF"), ("b1", "echo b")], fpat=["a1"], atoms=("corpus", "hd_lookalike")),        # fixed 3403941
+    _c(funcs=[("a1", "cat <<-EOF\n EOF\n\tsay \"hi\n\t\tEOF"), ("b1", "x=$(cat <<EOF\nEOF} it's\n\tEOF\nEOF\n)"), ("c1", "echo c")], fpat=["c1", "a1"],
+       atoms=("corpus", "hd_lookalike")),
 ]
 # raw texts (not produced by bash): boundary cases of the scanner itself
 RAW = [
@@ -641,15 +635,7 @@ def case_finding(c):
         return FINDING_GROUP
     if "heredoc_two" in atoms:
         return FINDING_TWO_HEREDOCS
-    if "hd_lookalike" in atoms:
-        return FINDING_LOOKALIKE
-    if in_alt_class(c):
-        return FINDING_ALT_TOKEN
     return None
-
-
-def in_alt_class(c):
-    return is_alt_finding(c["vpat"]) or is_alt_finding(c["fpat"])
 
 
 def _run_dumps(ctx, rng, cases, scratch):
@@ -748,10 +734,7 @@ def _run_dumps(ctx, rng, cases, scratch):
             if m["out"] != m["spec"]:
                 ctx.mismatch(case, "Lean model output is not 'input minus the filtered statements': " + first_diff(m["out"], m["spec"]))
             if m["out"] != m["specsel_out"]:
-                if in_alt_class(c):
-                    finding = FINDING_ALT_TOKEN      # the ungrouped single token is at work in this case
-                else:
-                    ctx.mismatch(case, "Lean model filters other statements than the specification selects: " + first_diff(m["out"], m["specsel_out"]))
+                ctx.mismatch(case, "Lean model filters other statements than the specification selects: " + first_diff(m["out"], m["specsel_out"]))
             mv = [s[3] for s in m["stmts"] if not s[0]]
             mf = [s[3] for s in m["stmts"] if s[0]]
             if mv != c["vseen"] or mf != [n for lvl, n in c["fseen"] if lvl == 0]:
@@ -796,7 +779,7 @@ def _sel_text(vnames, fnames):
 
 
 SMALL_NAMES = ["A", "B", "AA", "AB", "BA", "BB", "AAB", "ABA", "ABB", "BAB", "A_B", "AB_"]
-SMALL_TOKENS = ["A", "B", "AB", "BA", "A.*", ".*B", "A.", "AB?", "A_B"]
+SMALL_TOKENS = ["A", "B", "AB", "BA", "A.*", ".*B", "A.", "AB?", "A_B", "A|BA"]
 
 
 def _run_select(ctx, rng):
@@ -830,7 +813,6 @@ def _run_select(ctx, rng):
     for i, ((vnames, fnames, vpat, fpat, vwl, fwl), (text, status, out)) in enumerate(zip(items, reals)):
         m, vrep, frep = reps[3 * i], reps[3 * i + 1], reps[3 * i + 2]
         case = {"select": True, "vnames": vnames, "fnames": fnames, "vpat": vpat, "fpat": fpat, "vwl": vwl, "fwl": fwl}
-        finding = FINDING_ALT_TOKEN if (is_alt_finding(vpat) or is_alt_finding(fpat)) else None
         vsel = check_selection(ctx, case, "variable", vnames, vpat, vwl, vrep)
         fsel = check_selection(ctx, case, "function", fnames, fpat, fwl, frep)
         if vsel is None or fsel is None:
@@ -845,7 +827,7 @@ def _run_select(ctx, rng):
             ctx.mismatch(case, f"Lean model answered {m}, real code finished normally")
         elif m["out"] != out:
             ctx.mismatch(case, "filtered text differs from the Lean model's: " + first_diff(out, m["out"]))
-        elif m["out"] != m["specsel_out"] and finding is None:
+        elif m["out"] != m["specsel_out"]:
             ctx.mismatch(case, "Lean model filters other statements than the specification selects: " + first_diff(m["out"], m["specsel_out"]))
         # the property: exactly the selected definitions are gone, the others are there byte for byte
         want = ["%s=1" % n for n in vnames if n not in vsel]
@@ -857,7 +839,7 @@ def _run_select(ctx, rng):
             gone = [n for n in vnames + fnames if n not in vsel | fsel and ("%s=1" % n not in got and "%s () " % n not in got)]
             kept = [n for n in vnames + fnames if n in vsel | fsel and ("%s=1" % n in got or "%s () " % n in got)]
             ctx.violation(case, f"variable tokens {vpat!r} (whitelist={vwl}), function tokens {fpat!r} (whitelist={fwl}): wrongly removed {gone}, "
-                                f"wrongly kept {kept}", finding=finding)
+                                f"wrongly kept {kept}")
 
 
 def _run_raw(ctx, rng):
